@@ -689,6 +689,28 @@ Section PSC.
     apply IH. intros H1. apply H. right. exact H1.
   Qed.
 
+  Lemma dset_new (d : list (C * Z)) c v : ~ In c (map fst d) -> dset d c v = d ++ [(c, v)].
+  Proof.
+    induction d as [|[k x] d IH]; simpl; [reflexivity|]. intros H.
+    destruct (ceqb c k) eqn:E; [apply ceqb_eq in E; subst; exfalso; apply H; left; reflexivity|].
+    rewrite IH; [reflexivity|]. intros H1. apply H. right. exact H1.
+  Qed.
+
+  (* new seats of new candidates are appended *)
+  Lemma add_seats_app el : forall seats, NoDup (map fst el) ->
+    (forall c, In c (map fst el) -> ~ In c (map fst seats)) ->
+    add_seats seats el = seats ++ el.
+  Proof.
+    unfold add_seats. induction el as [|[c s] el IH]; intros seats Hnd Hd; simpl; [rewrite app_nil_r; reflexivity|].
+    inversion Hnd as [|? ? Hc Hnd']; subst.
+    assert (Hn : ~ In c (map fst seats)) by (apply Hd; left; reflexivity).
+    rewrite (dset_new seats c _ Hn), (dget_or_notin seats c Hn). change (0 + s)%Z with s.
+    rewrite IH; [rewrite <- app_assoc; reflexivity|exact Hnd'|].
+    intros x Hx. rewrite map_app. intros Hin. apply in_app_or in Hin. destruct Hin as [Hin|[<-|[]]].
+    - apply (Hd x); [right; exact Hx|exact Hin].
+    - exact (Hc Hx).
+  Qed.
+
   (* ---- when nobody holds a quota, the coalition's resting weight is below one quota per continuing member *)
   Lemma cnt_cons c l : cnt (c :: l) = if cmem c SS then S (cnt l) else cnt l.
   Proof. unfold cnt. cbn [filter]. destruct (cmem c SS); reflexivity. Qed.
@@ -849,6 +871,8 @@ Section PSC.
       i_caps : forall c, In c (keys_some a) -> dget caps c = Some 1%Z;
       i_disj : forall c, In c (keys_some a) -> ~ In c (map fst seats);
       i_sn : forall c, (0 <= dget_or seats c 0)%Z;
+      i_one : forall c s, In (c, s) seats -> s = 1%Z;
+      i_ndk : NoDup (map fst seats);
       i_cons : asum a + inject_Z (zsum (map snd seats)) * q <= total;
       i_B : BB (keys_some a) a;
       i_C : (exists c, In c SS /\ In c (keys_some a)) ->
@@ -867,7 +891,7 @@ Section PSC.
       asum (transfer a1 (map fst el0)) + inject_Z (seats_sum el0) * q == asum a ->
       Inv (transfer a1 (map fst el0)) (add_seats seats el0).
     Proof.
-      intros I Hel Hnd Hsub Hcons. destruct I as [I1 I2 I3 I4 I5 I6 I7 I8 I9].
+      intros I Hel Hnd Hsub Hcons. destruct I as [I1 I2 I3 I4 I5 Io Ik I6 I7 I8 I9].
       set (amts := map (fun cs : C * Z => (fst cs, inject_Z (snd cs) * q)) el0) in *.
       assert (Hamt : forall c amt, In (c, amt) amts -> exists s, In (c, s) el0 /\ amt = inject_Z s * q).
       { intros c amt Hin. unfold amts in Hin. apply in_map_iff in Hin. destruct Hin as ([c0 s0] & Heq & Hin).
@@ -906,6 +930,10 @@ Section PSC.
         + exact (I4 c (Hcont c Hc) Hin).
         + apply filter_In in Hc. destruct Hc as [_ Hc]. apply negb_true_iff, cmem_nIn in Hc. exact (Hc Hin).
       - apply add_seats_nonneg; [exact I5|]. intros c s Hin. destruct (Hel c s Hin) as [-> _]. lia.
+      - intros c s Hin. rewrite add_seats_app in Hin; [|exact Hnd|intros c0 Hc0; apply I4, HE, Hc0].
+        apply in_app_or in Hin. destruct Hin as [Hin|Hin]; [exact (Io c s Hin)|exact (proj1 (Hel c s Hin))].
+      - rewrite Hkeys. apply Threshold_proofs.nodup_app_intro; [exact Ik|exact Hnd|].
+        intros x Hx Hxe. exact (I4 x (HE x Hxe) Hx).
       - rewrite add_seats_sum, inject_Z_plus. lra.
       - rewrite R4. exact R3.
       - rewrite R4. intros (c & Hc1 & Hc2). rewrite Hkeys, cnt_app, Nat2Z.inj_add, inject_Z_plus.
@@ -922,7 +950,7 @@ Section PSC.
       incl elim (keys_some a) -> NoDup elim -> (length elim <= 1)%nat ->
       Inv (transfer a elim) seats.
     Proof.
-      intros I Hlt HE Hnd Hlen. destruct I as [I1 I2 I3 I4 I5 I6 I7 I8 I9].
+      intros I Hlt HE Hnd Hlen. destruct I as [I1 I2 I3 I4 I5 Io Ik I6 I7 I8 I9].
       destruct (transfer_psc a elim I1 I2 I7) as (R1 & R2 & R3 & R4 & R5).
       destruct (transfer_conserves a elim I1) as [T1 _].
       set (cont := filter (fun c => negb (cmem c elim)) (keys_some a)) in *.
@@ -934,6 +962,8 @@ Section PSC.
       - intros c Hc. rewrite R4 in Hc. apply I3, Hcont, Hc.
       - intros c Hc. rewrite R4 in Hc. apply I4, Hcont, Hc.
       - exact I5.
+      - exact Io.
+      - exact Ik.
       - rewrite T1. exact I6.
       - rewrite R4. exact R3.
       - rewrite R4. intros (c & Hc1 & Hc2).
@@ -1048,7 +1078,8 @@ Section PSC.
 
     (* the elect-all-remaining shortcut seats every continuing member of SS *)
     Lemma all_psc a seats el : Inv a seats -> next_count cf a n total seats caps = CR_all el ->
-      (Nat.min k (length SS) <= cnt (map fst (add_seats seats el)))%nat.
+      (Nat.min k (length SS) <= cnt (map fst (add_seats seats el)))%nat /\
+      (forall c s, In (c, s) (add_seats seats el) -> s = 1%Z) /\ NoDup (map fst (add_seats seats el)).
     Proof.
       intros I. unfold next_count. cbv zeta.
       match goal with |- context [if ?c then CR_all ?av else _] => destruct c; [set (avail := av)|] end.
@@ -1064,10 +1095,21 @@ Section PSC.
           { induction l0 as [|[k0 t] l0 IH]; [reflexivity|]. cbn [flat_map fst]. rewrite map_app, IH. destruct k0; reflexivity. }
           rewrite H1.
           rewrite <- (totals_keys_some a). apply Permutation_flat_map, Hp. }
-        rewrite add_seats_keys.
-        + rewrite cnt_app, (cnt_perm _ _ Hk). exact (i_I2 _ _ I).
-        + apply (Permutation_NoDup (Permutation_sym Hk)), keys_some_nodup, (i_nd _ _ I).
-        + intros c Hc. apply (i_disj _ _ I). apply (Permutation_in _ Hk), Hc.
+        assert (Hnda : NoDup (map fst avail)) by (apply (Permutation_NoDup (Permutation_sym Hk)), keys_some_nodup, (i_nd _ _ I)).
+        assert (Hdis : forall c, In c (map fst avail) -> ~ In c (map fst seats))
+          by (intros c Hc; apply (i_disj _ _ I); apply (Permutation_in _ Hk), Hc).
+        split; [|split].
+        + rewrite add_seats_keys; [|exact Hnda|exact Hdis].
+          rewrite cnt_app, (cnt_perm _ _ Hk). exact (i_I2 _ _ I).
+        + intros c s Hin. rewrite (add_seats_app avail seats Hnda Hdis) in Hin. apply in_app_or in Hin.
+          destruct Hin as [Hin|Hin]; [exact (i_one _ _ I c s Hin)|].
+          assert (Hck : In c (keys_some a)) by (apply (Permutation_in _ Hk); apply in_map_iff; exists (c, s); split; [reflexivity|exact Hin]).
+          unfold avail in Hin. apply in_flat_map in Hin. destruct Hin as ([k0 t0] & _ & Hin). cbn [fst] in Hin.
+          destruct k0 as [c0|]; [|destruct Hin]. destruct Hin as [Hin|[]]. injection Hin as -> <-.
+          unfold dget_or at 1. rewrite (i_caps _ _ I c Hck). rewrite (dget_or_notin seats c (i_disj _ _ I c Hck)). reflexivity.
+        + rewrite add_seats_keys; [|exact Hnda|exact Hdis].
+          apply Threshold_proofs.nodup_app_intro; [exact (i_ndk _ _ I)|exact Hnda|].
+          intros x Hx Hxa. exact (Hdis x Hxa Hx).
       - intros H. exfalso. revert H.
         repeat (match goal with |- context [match ?x with _ => _ end] => destruct x end); discriminate.
     Qed.
@@ -1076,7 +1118,7 @@ Section PSC.
     Lemma done_psc a seats : Inv a seats -> zsum (map snd seats) = n -> total < inject_Z (n + 1) * q ->
       (Nat.min k (length SS) <= cnt (map fst seats))%nat.
     Proof.
-      intros I Hz Hdroop. destruct I as [I1 I2 I3 I4 I5 I6 I7 I8 I9].
+      intros I Hz Hdroop. destruct I as [I1 I2 I3 I4 I5 Io Ik I6 I7 I8 I9].
       destruct (Nat.eq_dec (cnt (keys_some a)) 0) as [H0|H0]; [lia|].
       assert (Hpos : (0 < cnt (keys_some a))%nat) by lia.
       destruct (cnt_pos_ex _ Hpos) as (e & He1 & He2).
@@ -1097,13 +1139,15 @@ Section PSC.
 
     Theorem run_psc fuel : forall a seats acc, Inv a seats -> total < inject_Z (n + 1) * q ->
       t_stop (run cf fuel a n total seats caps acc) = None ->
-      (Nat.min k (length SS) <= cnt (map fst (t_seats (run cf fuel a n total seats caps acc))))%nat.
+      (Nat.min k (length SS) <= cnt (map fst (t_seats (run cf fuel a n total seats caps acc))))%nat /\
+      (forall c s, In (c, s) (t_seats (run cf fuel a n total seats caps acc)) -> s = 1%Z) /\
+      NoDup (map fst (t_seats (run cf fuel a n total seats caps acc))).
     Proof.
       induction fuel as [|f IH]; intros a seats acc I Hd; cbn [run].
       - destruct (zsum (map snd seats) =? n)%Z eqn:E; cbn [t_stop t_seats]; [|discriminate].
-        intros _. apply (done_psc a seats I); [apply Z.eqb_eq, E|exact Hd].
+        intros _. split; [apply (done_psc a seats I); [apply Z.eqb_eq, E|exact Hd]|split; [exact (i_one _ _ I)|exact (i_ndk _ _ I)]].
       - destruct (zsum (map snd seats) =? n)%Z eqn:E; cbn [t_stop t_seats].
-        { intros _. apply (done_psc a seats I); [apply Z.eqb_eq, E|exact Hd]. }
+        { intros _. split; [apply (done_psc a seats I); [apply Z.eqb_eq, E|exact Hd]|split; [exact (i_one _ _ I)|exact (i_ndk _ _ I)]]. }
         destruct (next_count cf a n total seats caps) as [el|a' el|s] eqn:En; cbn [t_stop t_seats]; [| |discriminate].
         + intros _. exact (all_psc a seats el I En).
         + pose proof (next_count_psc a seats a' el I En) as I'. destruct el as [|e el'].
@@ -1227,7 +1271,7 @@ Proof.
   - intros H. destruct IH as (b0 & w0 & H1 & H2); [lra|]. exists b0, w0. split; [right; exact H1|exact H2].
 Qed.
 
-Theorem psc_main (cf : cfg) (qf : Q -> Z -> Q) (votes : list (ballot * Q)) (n : Z) (caps : list (C * Z)) (SS : list C) (k : nat) :
+Theorem psc_strong (cf : cfg) (qf : Q -> Z -> Q) (votes : list (ballot * Q)) (n : Z) (caps : list (C * Z)) (SS : list C) (k : nat) :
   c_accept_equal cf = true -> c_step cf = (-1)%Z -> c_quota cf = Some qf ->
   (forall c, In c (all_ranked_candidates votes) -> dget caps c = Some 1%Z) ->
   NoDup SS -> SS <> [] ->
@@ -1237,11 +1281,12 @@ Theorem psc_main (cf : cfg) (qf : Q -> Z -> Q) (votes : list (ballot * Q)) (n : 
   0 < q -> total < inject_Z (n + 1) * q ->
   let t := stv cf votes n [] caps in
   t_stop t = None ->
-  inject_Z (Z.of_nat k) * q <= coalition_weight SS votes ->
-  (Nat.min k (length SS) <= length (filter (fun c => cmem c SS) (map fst (t_seats t))))%nat.
+  inject_Z (Z.of_nat k) * q <= coalition_weight SS votes -> (1 <= k)%nat ->
+  (Nat.min k (length SS) <= length (filter (fun c => cmem c SS) (map fst (t_seats t))))%nat /\
+  (forall c s, In (c, s) (t_seats t) -> s = 1%Z) /\ NoDup (map fst (t_seats t)).
 Proof.
-  intros Hae Hstep Hqf Hcaps Hnd Hne Hw total q Hq Hdroop t Hstop Hk.
-  destruct k as [|k']; [simpl; lia|].
+  intros Hae Hstep Hqf Hcaps Hnd Hne Hw total q Hq Hdroop t Hstop Hk Hk1.
+  destruct k as [|k']; [lia|]. revert Hstop.
   pose proof (total_vsum votes) as Htv. fold total in Htv.
   pose proof (cw_le_vsum SS votes Hw) as Hcv.
   pose proof (cast_le_vsum votes Hw) as Hcast.
@@ -1261,6 +1306,8 @@ Proof.
     - intros c Hc. rewrite P3 in Hc. exact (Hcaps c Hc).
     - intros c _ [].
     - intros c. unfold dget_or. simpl. lia.
+    - intros c s [].
+    - constructor.
     - change (zsum (map snd (@nil (C * Z)))) with 0%Z. change (inject_Z 0) with 0. fold q. rewrite C2. lra.
     - exact P2.
     - intros _. change (cnt SS (map fst (@nil (C * Z)))) with 0%nat. change (inject_Z (Z.of_nat 0)) with 0. fold q. rewrite P4. lra.
@@ -1272,10 +1319,54 @@ Proof.
         apply (all_ranked_in votes (map IP top ++ rest) w (IP x) x Hb1); [|left; reflexivity].
         apply in_or_app. left. apply in_map, Htop, Hx. }
       lia. }
-  unfold t, stv. fold total.
-  apply (run_psc SS cf Hae Hstep qf Hqf n total Htot Hn0 Hq caps (S k') _ _ _ _ Hinv Hdroop).
-  exact Hstop.
+  unfold t, stv. fold total. intros Hstop.
+  exact (run_psc SS cf Hae Hstep qf Hqf n total Htot Hn0 Hq caps (S k') _ _ _ _ Hinv Hdroop Hstop).
 Qed.
+
+(* the clause as stated: min(k, |SS|) members of SS are among the elected *)
+Theorem psc_main (cf : cfg) (qf : Q -> Z -> Q) (votes : list (ballot * Q)) (n : Z) (caps : list (C * Z)) (SS : list C) (k : nat) :
+  c_accept_equal cf = true -> c_step cf = (-1)%Z -> c_quota cf = Some qf ->
+  (forall c, In c (all_ranked_candidates votes) -> dget caps c = Some 1%Z) ->
+  NoDup SS -> SS <> [] ->
+  (forall b w, In (b, w) votes -> 0 <= w) ->
+  let total := Qred (fold_left Qplus (map snd votes) 0) in
+  let q := qf total n in
+  0 < q -> total < inject_Z (n + 1) * q ->
+  let t := stv cf votes n [] caps in
+  t_stop t = None ->
+  inject_Z (Z.of_nat k) * q <= coalition_weight SS votes ->
+  (Nat.min k (length SS) <= length (filter (fun c => cmem c SS) (map fst (t_seats t))))%nat.
+Proof.
+  intros Hae Hstep Hqf Hcaps Hnd Hne Hw total q Hq Hdroop t Hstop Hk.
+  destruct k as [|k']; [simpl; lia|].
+  exact (proj1 (psc_strong cf qf votes n caps SS (S k') Hae Hstep Hqf Hcaps Hnd Hne Hw Hq Hdroop Hstop Hk ltac:(lia))).
+Qed.
+
+(* declarative form: a set W of distinct members of SS, each holding exactly one seat, with |W| >= min(k, |SS|) *)
+Theorem psc_winners (cf : cfg) (qf : Q -> Z -> Q) (votes : list (ballot * Q)) (n : Z) (caps : list (C * Z)) (SS : list C) (k : nat) :
+  c_accept_equal cf = true -> c_step cf = (-1)%Z -> c_quota cf = Some qf ->
+  (forall c, In c (all_ranked_candidates votes) -> dget caps c = Some 1%Z) ->
+  NoDup SS -> SS <> [] ->
+  (forall b w, In (b, w) votes -> 0 <= w) ->
+  let total := Qred (fold_left Qplus (map snd votes) 0) in
+  let q := qf total n in
+  0 < q -> total < inject_Z (n + 1) * q ->
+  let t := stv cf votes n [] caps in
+  t_stop t = None ->
+  inject_Z (Z.of_nat k) * q <= coalition_weight SS votes ->
+  exists W : list C, NoDup W /\ incl W SS /\ (forall c, In c W -> In (c, 1%Z) (t_seats t)) /\
+                     (Nat.min k (length SS) <= length W)%nat.
+Proof.
+  intros Hae Hstep Hqf Hcaps Hnd Hne Hw total q Hq Hdroop t Hstop Hk.
+  destruct k as [|k']; [exists []; repeat split; [constructor|intros x []|intros c []|simpl; lia]|].
+  destruct (psc_strong cf qf votes n caps SS (S k') Hae Hstep Hqf Hcaps Hnd Hne Hw Hq Hdroop Hstop Hk ltac:(lia)) as (P1 & P2 & P3).
+  fold t in P1, P2, P3.
+  exists (filter (fun c => cmem c SS) (map fst (t_seats t))). split; [apply NoDup_filter_c, P3|]. split; [|split; [|exact P1]].
+  - intros x Hx. apply filter_In in Hx. apply cmem_In. tauto.
+  - intros c Hc. apply filter_In in Hc. destruct Hc as [Hc _]. apply in_map_iff in Hc. destruct Hc as ([c0 s0] & Heq & Hin).
+    simpl in Heq. subst c0. rewrite <- (P2 c s0 Hin). exact Hin.
+Qed.
+
 
 (* ---- the quotas of the library satisfy the hypotheses *)
 Lemma droop_ok (v : Q) (n : Z) : 0 <= v -> (0 <= n)%Z -> 0 < droop v n /\ v < inject_Z (n + 1) * droop v n.
